@@ -90,13 +90,25 @@ def evaluate(prop, cases):
         outs = impl.run_impl(w, [cases[i] for i in idx], hashseed=prop.hashseed())
         for i, o in zip(idx, outs):
             impl_outs[i] = o
+    # an implementation run that ended in an exception the worker does not expect (it never does on the tree the check was
+    # validated on) is a behaviour the model does not predict: a disagreement, reported with the traceback
+    werr = [isinstance(io, dict) and 'worker_error' in io for io in impl_outs]
+    good = [i for i in range(len(cases)) if not werr[i]]
     if hasattr(prop, 'model_case2'):
-        mcases = [prop.model_case2(c, io) for c, io in zip(cases, impl_outs)]
+        good_m = [prop.model_case2(cases[i], impl_outs[i]) for i in good]
     else:
-        mcases = [prop.model_case(c) for c in cases]
-    model_outs = model.run_model(mcases)
+        good_m = [prop.model_case(cases[i]) for i in good]
+    good_o = model.run_model(good_m) if good_m else []
+    mcases, model_outs = [None] * len(cases), [None] * len(cases)
+    for i, mc, mo in zip(good, good_m, good_o):
+        mcases[i], model_outs[i] = mc, mo
     js = []
-    for c, io, mo in zip(cases, impl_outs, model_outs):
+    for c, io, mo, we in zip(cases, impl_outs, model_outs, werr):
+        if we:
+            j = Judgement()
+            j.disagreements.append('the implementation run ended in an exception this check does not expect: ' + io['worker_error'][-900:])
+            js.append(j)
+            continue
         try:
             js.append(prop.judge(c, io, mo))
         except Exception:
@@ -211,7 +223,7 @@ def run_check(prop, tier='quick', seed=0, replay=None):
         try:
             lim = getattr(prop, 'cross_limit', 200) * (1 if tier == 'quick' else 2)
             cross_n, cross_ok, cross_detail = model.coq_crosscheck(
-                mcases, model_outs, os.path.join(ROOT, 'build', 'cross', pid), limit=lim,
+                [m_ for m_ in mcases if m_ is not None], [o_ for m_, o_ in zip(mcases, model_outs) if m_ is not None], os.path.join(ROOT, 'build', 'cross', pid), limit=lim,
                 budget=250000 if tier == 'quick' else 1500000)
             if not cross_ok:
                 harness_error = 'extracted model and vm_compute disagree: ' + cross_detail
@@ -321,7 +333,7 @@ def run_check(prop, tier='quick', seed=0, replay=None):
     n_eval = len(cases) + int(extra_stats.get('evaluations', 0))
     samples = []
     for i in range(min(2, len(cases))):
-        samples.append({'case': cases[i], 'model_entry': mcases[i][0] if mcases else None})
+        samples.append({'case': cases[i], 'model_entry': mcases[i][0] if (mcases and mcases[i] is not None) else None})
     for t in proof.get('theorems', [])[:6]:
         samples.append({'obligation': t})
     cov = {
